@@ -103,7 +103,9 @@ func journal(id string, c any) func() {
 	path := fmt.Sprintf("%s/%s-inflight-%s.json", dir, id, shardName())
 	b, _ := json.Marshal(map[string]any{"property": id, "sig": id + ":process-crash", "detail": "the process died while this case was running", "case": c})
 	_ = os.WriteFile(path, b, 0o644)
-	return func() { _ = os.Remove(path) }
+	// a finished case stays as "last": late goroutines of the code under test can still kill the process
+	last := fmt.Sprintf("%s/%s-last-%s.json", dir, id, shardName())
+	return func() { _ = os.Rename(path, last) }
 }
 
 func shardName() string {
@@ -143,6 +145,7 @@ func (p Prop[C]) Known(t *testing.T) {
 		if kf.Replay == "" {
 			continue
 		}
+		fmt.Printf("KNOWN-REPLAY-START %s\n", kf.Replay)
 		var c C
 		if _, err := LoadReplay(VerifRoot()+"/"+kf.Replay, &c); err != nil {
 			fmt.Printf("HARNESS-ERROR cannot load known-finding replay %s: %v\n", kf.Replay, err)
